@@ -103,3 +103,9 @@ Print Assumptions keyed_cache_sound.
 Theorem histogram_key_fields : hist_key_fields = [1; 2; 3; 4; 5].
 Proof. exact Lemmas.histogram_key_fields. Qed.
 Print Assumptions histogram_key_fields.
+
+(* FloodFillSubsetState recomputes its mask when its parameters differ or when data[att] is no longer the array the mask was
+   computed from (so a derived / linked attribute, whose array is rebuilt on every read, is never served from the cache). *)
+Theorem floodfill_recompute_test : floodfill_key = 1.
+Proof. exact Lemmas.floodfill_recompute_test. Qed.
+Print Assumptions floodfill_recompute_test.
